@@ -29,7 +29,7 @@ RULE = (
 )
 ASSUMPTIONS = ["lag() excluded (defined across rows); follow-up rows are training rows so that raise-mode splines stay in range"]
 
-NUM = ["x", "y", "p", "body mass"]
+NUM = ["x", "y", "p", "body mass", "body+mass"]
 CAT = ["A", "B", "S"]
 
 
@@ -83,10 +83,16 @@ def gen_case(rng: random.Random, tier: str) -> dict:
         ["y", {"kind": "num", "dtype": "float64", "values": [round(rng.gauss(50, 100), 4) for _ in range(n)]}],
         ["p", {"kind": "num", "dtype": "float64", "values": [round(rng.uniform(0.5, 3), 6) for _ in range(n)]}],
         ["body mass", {"kind": "num", "dtype": "float64", "values": [round(rng.gauss(70, 12), 3) for _ in range(n)]}],
+        # sanitizes to the same Python identifier as "body mass"
+        ["body+mass", {"kind": "num", "dtype": "float64", "values": [round(rng.gauss(-5, 3), 3) for _ in range(n)]}],
         ["A", {"kind": "cat", "categories": lvA, "values": catvals(lvA)}],
         ["B", {"kind": "cat", "categories": rng.sample(lvB, 2), "values": catvals(lvB)}],
         ["S", {"kind": "text", "dtype": rng.choice(["object", "str"]), "values": catvals(lvS)}],
     ], "index": None}
+    # a plain column whose name is what the quoted names sanitize to: present at fit time, in follow-ups, both or neither
+    plain = rng.choice(["never", "never", "fit", "follow", "both"])
+    if plain in ("fit", "both"):
+        frame["cols"].append(["body_mass", {"kind": "num", "dtype": "float64", "values": [round(rng.gauss(1, 1), 3) for _ in range(n)]}])
     levels = {"A": lvA, "B": lvB, "S": lvS}
     enc, kinds = {}, {}
     for v in NUM:
@@ -118,9 +124,17 @@ def gen_case(rng: random.Random, tier: str) -> dict:
             uniq.append(t)
     terms = uniq
     f = " + ".join([rng.choice(["1", "0"])] + [tstr(t) for t in terms] + extra_terms)
+    if rng.random() < 0.3:  # several parts drawing on the same encoded factors
+        more = []
+        for _ in range(rng.randint(1, 2)):
+            ts = [rng.sample(vars_, rng.randint(1, min(2, len(vars_)))) for _ in range(rng.randint(1, 2))]
+            more.append(" + ".join([rng.choice(["1", "0"])] + list(dict.fromkeys(":".join(enc[v] for v in t) for t in ts))))
+        f = " | ".join([f] + more)
+        if rng.random() < 0.4:
+            f = f"{enc[rng.choice(vars_)]} ~ {f}"
     follow = []
     for _ in range(rng.randint(4, 6)):
-        kind = rng.choice(["same", "subset", "dup", "perm", "single", "lost_levels", "pickle", "pickle", "deepcopy", "via_function", "via_matrix", "recat", "recat"])
+        kind = rng.choice(["same", "subset", "dup", "perm", "single", "lost_levels", "pickle", "pickle", "deepcopy", "via_function", "via_matrix", "recat", "recat", "part_alone", "part_alone"])
         if kind == "same":
             rows = list(range(n))
         elif kind == "dup":
@@ -134,17 +148,17 @@ def gen_case(rng: random.Random, tier: str) -> dict:
             rows = [i for i in range(n) if dict((k, v) for k, v in frame["cols"])["A"]["values"][i] == keep] or [0]
         else:
             rows = sorted(rng.sample(range(n), rng.randint(1, n)))
-        follow.append({"kind": kind, "rows": rows})
+        follow.append({"kind": kind, "rows": rows, "plain_col": plain == "both" or (plain == "fit" and rng.random() < 0.5) or (plain == "follow" and rng.random() < 0.7)})
     used = sorted({kinds[v] for t in terms for v in t})
     return {"frame": frame, "formula": f, "output": rng.choice(["pandas", "numpy", "sparse"]), "follow": follow,
-            "sig": [used, sorted(len(t) for t in terms)]}
+            "sig": [used, sorted(len(t) for t in terms), f.count("|") + 2 * f.count("~"), plain]}
 
 
 def judge(case) -> Outcome:
     from formulaic import model_matrix
 
     out = Outcome()
-    out.sig = (tuple(case["sig"][0]), tuple(case["sig"][1]), tuple(sorted({f["kind"] for f in case["follow"]})), case["output"])
+    out.sig = (tuple(case["sig"][0]), tuple(case["sig"][1]), tuple(case["sig"][2:]), tuple(sorted({f["kind"] for f in case["follow"]})), case["output"])
     df = make_frame(case["frame"])
     f = case["formula"]
     tag = f"{f!r} output={case['output']}"
@@ -159,10 +173,11 @@ def judge(case) -> Outcome:
                 return out
             out.fail("c04.fit_raised", f"{tag}: {type(e).__name__}: {msg[:200]}")
             return out
-        M0 = dense(mm)
+        parts = list(mm._flatten()) if hasattr(mm, "_flatten") else [mm]
+        M0s = [dense(p) for p in parts]
         spec = mm.model_spec
-        names = colnames(mm)
-        if not np.isfinite(M0).all():
+        names = [colnames(p) for p in parts]
+        if not all(np.isfinite(M0).all() for M0 in M0s):
             out.decided = False
             return out
         for step, fu in enumerate(case["follow"]):
@@ -172,6 +187,12 @@ def judge(case) -> Outcome:
                 for _nm, c in subspec["cols"]:
                     if c["kind"] == "cat":
                         c["categories"] = list(reversed(c["categories"]))
+            has_plain = any(nm == "body_mass" for nm, _c in subspec["cols"])
+            if fu.get("plain_col", has_plain) != has_plain:  # an unrelated column appears in / disappears from the follow-up data
+                if has_plain:
+                    subspec["cols"] = [c for c in subspec["cols"] if c[0] != "body_mass"]
+                else:
+                    subspec["cols"].append(["body_mass", {"kind": "num", "dtype": "float64", "values": [float(i) for i in range(len(rows))]}])
             sub = make_frame(subspec)
             sp = spec
             try:
@@ -186,23 +207,32 @@ def judge(case) -> Outcome:
                     m2 = model_matrix(spec, sub)
                 elif kind == "via_matrix":
                     m2 = model_matrix(mm, sub)
+                elif kind == "part_alone":  # each part's own spec, used by itself
+                    m2 = [p.model_spec.get_model_matrix(sub) for p in parts]
                 else:
                     m2 = sp.get_model_matrix(sub)
             except Exception as e:  # noqa: BLE001
                 out.fail("c04.replay_raised", f"{tag} step {step} [{kind}] rows={rows[:6]}: {type(e).__name__}: {str(e)[:200]}")
                 return out
-            n2 = colnames(m2)
-            if n2 != names:
-                out.fail("c04.replay_names", f"{tag} [{kind}]: names {n2} != fit names {names}")
+            parts2 = m2 if isinstance(m2, list) else list(m2._flatten()) if hasattr(m2, "_flatten") else [m2]
+            if len(parts2) != len(parts):
+                out.fail("c04.replay_shape", f"{tag} [{kind}]: {len(parts2)} parts replayed, {len(parts)} fitted")
                 return out
-            M2 = dense(m2)
-            if M2.shape != (len(rows), len(names)) or not same(M2, M0[rows]):
-                bad = np.argwhere(~np.isclose(M2, M0[rows], rtol=1e-9, atol=1e-9)) if M2.shape == M0[rows].shape else []
-                where = f"row {rows[bad[0][0]]} col {names[bad[0][1]]!r}: {M2[bad[0][0], bad[0][1]]!r} vs {M0[rows][bad[0][0], bad[0][1]]!r}" if len(bad) else f"shape {M2.shape}"
-                out.fail("c04.replay_values", f"{tag} step {step} [{kind}] rows={rows[:6]}..: replay differs from the fitted rows ({where})")
-                return out
+            for k, (p2, M0, nm) in enumerate(zip(parts2, M0s, names)):
+                n2 = colnames(p2)
+                if n2 != nm:
+                    out.fail("c04.replay_names", f"{tag} [{kind}] part {k}: names {n2} != fit names {nm}")
+                    return out
+                M2 = dense(p2)
+                if M2.shape != (len(rows), len(nm)) or not same(M2, M0[rows]):
+                    bad = np.argwhere(~np.isclose(M2, M0[rows], rtol=1e-9, atol=1e-9)) if M2.shape == M0[rows].shape else []
+                    where = f"row {rows[bad[0][0]]} col {nm[bad[0][1]]!r}: {M2[bad[0][0], bad[0][1]]!r} vs {M0[rows][bad[0][0], bad[0][1]]!r}" if len(bad) else f"shape {M2.shape}"
+                    out.fail("c04.replay_values", f"{tag} step {step} [{kind}] part {k} plain_col={fu.get('plain_col')} rows={rows[:6]}..: replay differs from the fitted rows ({where})")
+                    return out
             out.see("replays_checked")
             out.see(f"kind.{kind}")
+            if len(parts) > 1:
+                out.see("structured_replays")
     return out
 
 
